@@ -7,6 +7,7 @@ import (
 	"io"
 	"net/http"
 	"strings"
+	"time"
 
 	"github.com/ipni/go-libipni/dhash"
 	"github.com/ipni/go-libipni/find/model"
@@ -62,6 +63,20 @@ func (r *c12rt) RoundTrip(req *http.Request) (*http.Response, error) {
 	return answer(http.StatusNotFound, nil)
 }
 
+// an indexer's /providers/<id> endpoint that knows the providers of the index
+type c12providers struct{ triples []c12triple }
+
+func (r *c12providers) RoundTrip(req *http.Request) (*http.Response, error) {
+	for _, t := range r.triples {
+		if req.URL.Path == "/providers/"+t.pid.String() {
+			b, err := json.Marshal(&model.ProviderInfo{AddrInfo: peer.AddrInfo{ID: t.pid}})
+			verif_Assume(err == nil)
+			return &http.Response{StatusCode: http.StatusOK, Header: http.Header{}, Body: io.NopCloser(bytes.NewReader(b)), Request: req}, nil
+		}
+	}
+	return &http.Response{StatusCode: http.StatusNotFound, Header: http.Header{}, Body: io.NopCloser(bytes.NewReader(nil)), Request: req}, nil
+}
+
 type c12triple struct {
 	pid     peer.ID
 	ctx, md []byte
@@ -111,10 +126,19 @@ func VerifC12_FindWorkflow() {
 	// reached directly or through the client's own HTTP dhstore backend
 	var c *DHashClient
 	var cerr error
-	if verif_Bool("dhstoreOverHTTP") {
-		c, cerr = NewDHashClient(WithDHStoreURL("http://dhstore.example"), WithClient(&http.Client{Transport: &c12rt{st: st}}), WithMetadataOnly(true))
-	} else {
+	switch verif_Choose("clientKind", 0, 2) {
+	case 0:
 		c, cerr = NewDHashClient(WithDHStoreAPI(st), WithMetadataOnly(true))
+	case 1:
+		c, cerr = NewDHashClient(WithDHStoreURL("http://dhstore.example"), WithClient(&http.Client{Transport: &c12rt{st: st}}), WithMetadataOnly(true))
+	case 2:
+		// with provider information: the client's own provider cache over the
+		// library's HTTP source (no preload: every provider is a lookup miss that
+		// asks the indexer's /providers/<id> endpoint)
+		oldRT := http.DefaultTransport
+		defer func() { http.DefaultTransport = oldRT }()
+		http.DefaultTransport = &c12providers{triples: triples}
+		c, cerr = NewDHashClient(WithDHStoreAPI(st), WithProvidersURL("http://indexer.example"), WithPcachePreload(false), WithPcacheTTL(time.Hour))
 	}
 	verif_Assume(cerr == nil && c != nil)
 	resp, ferr := c.Find(context.Background(), mh)
